@@ -12,6 +12,10 @@ perform_kramers_kronig_test(..., num_F_ext_evaluations=0, num_procs=1) is run on
                 difference weighted with that term's largest contribution to the spectrum and divided by the largest
                 contribution of all terms (= "significant parameters")                             <= PAR_TOL
   completion    both calls return (an exception on either side is a violation keyed by side and origin)
+  route         for a fixed share of the pairs (about 1/48 and 1/24) the transformed input is evaluated through
+                perform_exploratory_kramers_kronig_tests(num_RCs=[n-1,n,n+1]) or evaluate_log_F_ext(num_RCs=[n]) instead
+                of perform_kramers_kronig_test (c07.run_route): the verdict must not depend on the entry point either;
+                violations of such pairs carry an '@exploratory' / '@evaluate' key suffix
 
 "Well-conditioned num_RC" is a precondition of the pair, decided from the harness's own matrices for BOTH inputs
 (kk_model.gate_stats with the harness's own least-squares solution sizing the terms).  Because the property is about
@@ -43,7 +47,8 @@ RULE = (
     "itself; multiplicative Gaussian noise 0..1 %), grids 4..12 points/decade over 2.5..7 decades, for every legal linear cell "
     "(6 tests x {Z,Y} x add_capacitance x add_inductance; cnls impedance without capacitance on noise-free spectra in the thorough tier), num_RC "
     "from 2 to ~1.5 per decade, log_F_ext in [-0.5,0.5]; transforms {Z*a, f*b, reverse, Z*a+f*b, Z*a+f*b+reverse}, a,b in "
-    "10^[-6,6] (half of them exact powers of two). A pair is non-trivial when both inputs pass the conditioning gate; "
+    "10^[-6,6] (half of them exact powers of two); a fixed share of the transformed inputs goes through "
+    "perform_exploratory_kramers_kronig_tests / evaluate_log_F_ext instead of perform_kramers_kronig_test. A pair is non-trivial when both inputs pass the conditioning gate; "
     "distinct = distinct (cell, spectrum, num_RC, log_F_ext, transform) keys."
 )
 ASSUMPTIONS = [
@@ -177,15 +182,10 @@ def gen_pair(rng, cell, tier):
 # ------------------------------------------------------------------------------------------------
 # execution + oracle
 # ------------------------------------------------------------------------------------------------
-def _run(f, Z, p):
-    from pyimpspec import DataSet, perform_kramers_kronig_test
-
-    with warnings.catch_warnings():
-        warnings.simplefilter("ignore")
-        return perform_kramers_kronig_test(
-            DataSet(f, Z), test=p["test"], num_RC=int(p["num_RC"]), add_capacitance=bool(p["add_c"]), add_inductance=bool(p["add_l"]),
-            admittance=bool(p["adm"]), log_F_ext=float(p["log_F_ext"]), num_F_ext_evaluations=0, num_procs=1,
-        )
+def _run(f, Z, p, route="main"):
+    """route: which public entry point produces the result (c07.run_route): perform_kramers_kronig_test,
+    perform_exploratory_kramers_kronig_tests or evaluate_log_F_ext - the verdict must not depend on it."""
+    return c07.run_route(f, Z, p["test"], p["num_RC"], p["add_c"], p["add_l"], p["adm"], p["log_F_ext"], route)
 
 
 def _stats(f, Z, p):
@@ -227,6 +227,8 @@ def check_pair(p):
     n, x, a, b = int(p["num_RC"]), float(p["log_F_ext"]), float(p["a"]), float(p["b"])
     cname = c07.cell_name(test, adm, add_c, add_l)
     rep = "Y" if adm else "Z"
+    route = p.get("route") or "main"  # entry point used for the transformed input (the data side always uses the main one)
+    rsfx = "" if route == "main" else "@" + route
     f1 = np.array(p["f"], dtype=float)
     Z1 = np.array([complex(u, v) for u, v in p["Z"]])
     f2, Z2 = f1 * b, Z1 * a
@@ -249,8 +251,8 @@ def check_pair(p):
     replay = {"kind": "explicit", "pair": {k: v for k, v in p.items() if k != "meta"}}
 
     def bad(mech, msg, key=None):
-        viol.append({"key": key or f"C09/{mech}:{test}/{rep}",
-                     "msg": f"[{cname} N={len(f1)} num_RC={n} log_F_ext={x:.3g} transform={p['transform']} a={a:.6g} b={b:.6g}] {msg}",
+        viol.append({"key": key or f"C09/{mech}:{test}/{rep}{rsfx}",
+                     "msg": f"[{cname} N={len(f1)} num_RC={n} log_F_ext={x:.3g} transform={p['transform']} a={a:.6g} b={b:.6g} route={route}] {msg}",
                      "witness": {"cell": cname, "gate_data": {k: float(v) for k, v in st1.items()}, "gate_transformed": {k: float(v) for k, v in st2.items()},
                                  "inside_gate": bool(inside), "replay_case": replay}})
 
@@ -259,11 +261,17 @@ def check_pair(p):
     res = []
     for side, (ff, ZZ) in (("data", (f1, Z1)), ("transformed", (f2, Z2))):
         try:
-            res.append(_run(ff, ZZ, p))
+            res.append(_run(ff, ZZ, p, route if side == "transformed" else "main"))
+        except c07.RouteResultMissing as e:
+            bad("route-result-missing", f"{side} via {route}: {e}"[:300])
+            return out
         except Exception as e:
             o = monitors.exception_origin(e)
+            if side == "transformed" and route == "exploratory" and "algorithms" in o["file"].replace("\\", "/").split("/"):
+                out["route_unavailable"] = f"{type(e).__name__}@{o['func']}"  # suggestion heuristics, not this property
+                return out
             bad("raised", f"{side}: {type(e).__name__} at {o['file']}:{o['func']}: {e}"[:400] + "\n" + monitors.tb_tail(e, 4),
-                key=f"C09/raised:{test}/{rep}:{type(e).__name__}@{o['func']}")
+                key=f"C09/raised:{test}/{rep}:{type(e).__name__}@{o['func']}{rsfx}")
             return out
     r1, r2 = res
     obs = {}
@@ -358,9 +366,11 @@ def run_case(case):
     rng = np.random.default_rng(case["seed"])
     tier = case.get("tier", "quick")
     if case["kind"] == "linear":
-        todo = [c for c in LIN_CELLS for _ in range(case["per_cell"])]
+        ci = int(case["seed"][-1])
+        todo = [(c, "exploratory" if (j == 0 and ci % 8 == 0) else ("evaluate" if (j == 1 and ci % 4 == 1) else None))
+                for c in LIN_CELLS for j in range(case["per_cell"])]
     else:
-        todo = [CNLS_CELLS[i % 2] for i in range(case["count"])]
+        todo = [(CNLS_CELLS[i % 2], None) for i in range(case["count"])]
     viol, keys, stats, maxobs = [], [], {}, {}
     evals = 0
     sample = None
@@ -372,9 +382,19 @@ def run_case(case):
         if v is not None and np.isfinite(v):
             maxobs[name] = max(maxobs.get(name, 0.0), float(v))
 
-    for cell in todo:
+    for cell, alt in todo:
         p = gen_pair(rng, tuple(cell), tier)
+        if alt:
+            p["route"] = alt
+            cnt(f"route:{alt}")
         out = check_pair(p)
+        if out.get("route_unavailable"):
+            cnt(f"route:{alt}:unavailable:{out['route_unavailable']}")
+            continue
+        if alt and out["inside"] and out["obs"] is not None:
+            cnt(f"route:{alt}:inside_gate")
+            if p["log_F_ext"] != 0.0:
+                cnt(f"route:{alt}:inside_gate:nonzero_log_F_ext")
         cname = out["cell"]
         tname = f"{p['test']}/{'Y' if p['adm'] else 'Z'}"
         cnt(f"run:{cname}")
@@ -422,6 +442,9 @@ def finalize(agg):
         cn = c07.cell_name(*cell)
         if st.get(f"inside:{cn}", 0) < need:
             inc.append(f"cell {cn}: only {st.get(f'inside:{cn}', 0)} pairs inside the conditioning gate (need {need})")
+    for alt in c07.ROUTES[1:]:
+        if st.get(f"route:{alt}:inside_gate:nonzero_log_F_ext", 0) < 50:
+            inc.append(f"route {alt}: only {st.get(f'route:{alt}:inside_gate:nonzero_log_F_ext', 0)} judged pairs with log_F_ext != 0 (need 50)")
     for t in TRANSFORMS:
         if st.get(f"inside:transform:{t}", 0) < need:
             inc.append(f"transform {t}: only {st.get(f'inside:transform:{t}', 0)} pairs inside the gate")
